@@ -45,10 +45,32 @@ def _():
     return _ne(ndx.asarray(x)[ndx.asarray(np.array([1, 0]))].to_numpy(), x[[1, 0]])
 
 
-def replay_all(ctx):
+# ---------------------------------------------------------------- C01 / C06
+def _where_symbolic_fold():
+    from . import impl
+    c = ndx.array(shape=("N",), dtype=ndx.bool)
+    out = ndx.where(c, ndx.asarray(np.array([1])), ndx.asarray(np.array([1])))
+    m = ndx.build({"c": c}, {"o": out})
+    got = impl.run_model(m, {"c": np.array([True, False, True])}, {"o": out})["o"]
+    return got.shape != (3,)
+
+
+@witness("C01", "where/equal-branches/shape-differs")
+def _():
+    return _where_symbolic_fold()
+
+
+@witness("C06", "where/equal-branches/shape-differs")
+def _():
+    return _where_symbolic_fold()
+
+
+def replay_all(ctx):  # noqa: E302
     for key, fn in W.get(ctx.prop, {}).items():
         try:
             still = bool(fn())
         except Exception:
             still = True
         ctx.reproduce_known(key, still)
+
+
